@@ -110,6 +110,12 @@ P = {
         text="For 16 declaration routes x {integer, binary} x 3 model shapes x 11 methods x {linear, nonlinear}: strict=True must raise IntegerVariableError naming exactly the discrete problem variables before either SciPy seam is entered; the non-strict solve must warn with exactly those names and equal the twin's solve of the continuous relaxation; every binary element must have bounds (0,1) and every view must keep the domain.",
         ref="3/C18",
     ),
+    "C15": dict(
+        level="exploration",
+        technique="runtime monitoring: differential observation of left-deep / balanced / vectorised builds of one term list vs an iteratively folded reference, at and beyond the real switch thresholds and with thresholds lowered",
+        text="For 35 base-term kinds x {+,-,*,/} and chain lengths around the real switch threshold (399/400/401), 450, 900 and (sums, differences) 5000 / 20000, the left-deep accumulation and the balanced tree are observed through variable discovery, compute_degree, symbolic gradient value, evaluate, compile_expression, compile_gradient / compile_jacobian and solve, and compared with the reference algebra folded iteratively and with each other; every exception on a deep build is an event (RecursionError classified by stage, operator, build and length). All four thresholds are lowered to 2 on random grammar recipes. Known finding: derivative trees of left-deep product / quotient chains overflow the recursive evaluator.",
+        ref="3/C15",
+    ),
 }
 
 PENDING = "check under construction in this round (see DESIGN.md section 3 for the planned monitor)"
